@@ -18,6 +18,7 @@ import (
 	"strconv"
 	"strings"
 	"sync"
+	"syscall"
 	"testing"
 	"time"
 	"unicode/utf8"
@@ -254,18 +255,43 @@ func TestVerifC20EmptyChild(t *testing.T) {
 		}
 		done <- "returned " + verifIds(ids)
 	}()
-	select {
-	case r := <-done:
-		fmt.Println("C20CHILD " + r)
-	case <-time.After(1500 * time.Millisecond):
-		fmt.Println("C20CHILD hang")
-		os.Exit(0)
+	// verdict by CPU time, not wall time: a non-terminating Encode spins (and allocates), so the process's user+system time
+	// passes 1.5 s however loaded the machine is; a call that merely waits for a CPU never does.  After 40 s of wall
+	// time without either, the answer is "inconclusive" (never a violation).
+	start := time.Now()
+	for {
+		select {
+		case r := <-done:
+			fmt.Println("C20CHILD " + r)
+			return
+		case <-time.After(50 * time.Millisecond):
+		}
+		var ru syscall.Rusage
+		syscall.Getrusage(syscall.RUSAGE_SELF, &ru)
+		cpu := time.Duration(ru.Utime.Nano() + ru.Stime.Nano())
+		if cpu > 1500*time.Millisecond {
+			fmt.Println("C20CHILD hang")
+			os.Exit(0)
+		}
+		if time.Since(start) > 40*time.Second {
+			fmt.Println("C20CHILD inconclusive")
+			os.Exit(0)
+		}
 	}
 }
 
-// verifRunChild: "hang" | "returned <ids>" | "error ..." (the parent's own 60 s limit is only a backstop)
+// verifRunChild: "hang" | "returned <ids>" | "inconclusive ..." | "error ..." (the parent's own 90 s limit is only a backstop;
+// a child that gives no answer is inconclusive, tried twice)
 func verifRunChild(spec string) string {
-	ctx, cancel := context.WithTimeout(context.Background(), 60*time.Second)
+	a := verifRunChildOnce(spec)
+	if strings.HasPrefix(a, "inconclusive") {
+		a = verifRunChildOnce(spec)
+	}
+	return a
+}
+
+func verifRunChildOnce(spec string) string {
+	ctx, cancel := context.WithTimeout(context.Background(), 90*time.Second)
 	defer cancel()
 	cmd := exec.CommandContext(ctx, os.Args[0], "-test.run=^TestVerifC20EmptyChild$", "-test.count=1")
 	cmd.Env = append(os.Environ(), "VERIF_C20_CHILD="+spec)
@@ -275,7 +301,7 @@ func verifRunChild(spec string) string {
 			return strings.TrimSpace(rest)
 		}
 	}
-	return fmt.Sprintf("error child gave no answer (%v)", err)
+	return fmt.Sprintf("inconclusive: child gave no answer (%v)", err)
 }
 
 // verifEmptySpecialCase: one case line "emptyspecial <fam> <variant> <texthex>".  Hang -> L2 `encode-hang` (the property's
@@ -290,6 +316,8 @@ func verifEmptySpecialCase(enc [256]int, fam string, variant int, text string, c
 	case strings.HasPrefix(childAnswer, "returned"):
 		out.Count("emptyspecial_returned")
 		verifEmptySpecialTok(fam, variant).runCase(enc, []verifSeg{{text, false}}, false, out)
+	case strings.HasPrefix(childAnswer, "inconclusive"):
+		out.Count("emptyspecial_inconclusive") // machine too loaded to tell: not a violation, but counted (the check wants 8 conclusive cases)
 	default:
 		out.L2("encode-error", cl, childAnswer)
 	}
@@ -1323,6 +1351,8 @@ func verifByteLitAlign(text, dec string) bool {
 	return j == len(dec) && n > 0
 }
 
+const verifMaxSpecialOcc = 4000
+
 type verifCall struct {
 	text string
 	add  bool
@@ -1383,6 +1413,20 @@ func (tk *verifTok) runCall(tmpl *verifTok, enc [256]int, c verifCall, cl string
 		out.Count("cases_" + tk.name)
 	}
 
+	// the real splitting loop rebuilds the fragment slice at every special occurrence (quadratic in their number): no
+	// generated text goes to Encode with more than verifMaxSpecialOcc of them (one directed case has 3000)
+	nocc := 0
+	for _, f := range verifFragments(tk.specials, text) {
+		if f.sp {
+			nocc++
+		}
+	}
+	if nocc > verifMaxSpecialOcc {
+		out.Count("cases_skipped_too_many_special_occurrences")
+		return
+	}
+	out.Count("special_occurrences_" + map[bool]string{true: "le_100", false: "gt_100"}[nocc <= 100])
+
 	// ---- the real code
 	ids, err := tk.tp.Encode(text, add)
 	impl := ""
@@ -1412,6 +1456,9 @@ func (tk *verifTok) runCall(tmpl *verifTok, enc [256]int, c verifCall, cl string
 	} else if len(text) > 6000 {
 		l1 = false
 	}
+	if nocc > 1000 {
+		l1 = false
+	}
 	if l1 {
 		var op string
 		if tk.family == "bpe" {
@@ -1438,7 +1485,12 @@ func (tk *verifTok) runCall(tmpl *verifTok, enc [256]int, c verifCall, cl string
 
 	// ---- L2 (property predicates on the real code only; addSpecial = false)
 	if tk.family == "bpe" {
+		out.Count("cases_family_bpe")
 		tk.checkPartition(text, cl, out)
+		for _, f := range verifTextFragments(tk.specials, text) { // hypothesis hsplit of bpe_roundtrip, exactly as stated
+			tk.checkPartition(f, cl, out)
+			out.Count("l2_split_partition_fragments_checked")
+		}
 	}
 	ids0 := ids
 	if add {
@@ -1498,6 +1550,9 @@ func (tk *verifTok) runCall(tmpl *verifTok, enc [256]int, c verifCall, cl string
 // checkPartition: the real pre-tokenizer's pieces concatenate to its input (the hypothesis `hsplit` of
 // bpe_roundtrip), here on the whole text; opBPE checks the same on every text fragment.
 func (tk *verifTok) checkPartition(text, cl string, out *zzverif.Out) {
+	if len(text) > 300000 {
+		return // the > 1 MiB texts of the thorough tier: the whole text was checked by the caller once
+	}
 	out.Count("l2_split_partition_checked")
 	var sb strings.Builder
 	for p := range tk.bpe.split(text) {
@@ -1735,6 +1790,11 @@ func TestVerifC20(t *testing.T) {
 				}
 			}
 		}
+	}
+	// ONE directed case with many special occurrences (3000; the loop is quadratic in them): L2 only
+	for _, name := range []string{"synth", "spm"} {
+		byName[name].runHistory(enc, []verifCall{{strings.Repeat("ab"+byName[name].specials[0], 3000), false}}, out)
+		out.Count("directed_many_special_occurrences")
 	}
 	// addSpecial on every tokenizer, on an empty and a non-empty text (BOS/EOS branches with every seed)
 	for _, tk := range toks {
